@@ -36,6 +36,7 @@ FIXTURES = [
     ("c03_bad_merge_order", "bad", ["T5"]),
     ("c03_bad_insert_order", "bad", ["T6"]),
     ("c03_good_match_form", "good", []),
+    ("c03_bad_push_skips_leaf", "bad", ["T7"]),
 ]
 
 
@@ -273,6 +274,36 @@ def check(col, prog, tier, profile, fixture=None):
             col.ok("T5" + sfx, b.loc(e.bb), key, desc)
         else:
             col.violation("T5" + sfx, key, b.loc(e.bb), "merge does not keep sequence order: recursive call merge(%s, %s) stored to %s, returning %s" % (tstr(e.args[0]), tstr(e.args[1]), tstr(stores[0].place) if stores else "nothing", tstr(ret)))
+
+    # ---------------- T7 the node-level push/update hand the item BOTH children on every path
+    col.rule("T7" + sfx, "TreapNode::push / update call the item's push / update with (left child's item, right child's item) on every path", floor=2)
+    for nb, meth in ((R.push, "push"), (R.update, "update")):
+        I = R.A(nb)
+        selfp = ("deref", ("param", 1, I.names.get(1)))
+        ok = bool(I.final_states)
+        why = "no returning path"
+        for st in I.final_states:
+            calls = [e for e in st.event_list() if e.kind == "call" and e.extra.get("name") == meth and "TreapItem" in (e.extra.get("trait") or "")]
+            if len(calls) != 1:
+                ok, why = False, "a path makes %d calls of TreapItem::%s (a node without children must still let its item %s)" % (len(calls), meth, "clear its pending modification" if meth == "push" else "recompute its aggregate")
+                continue
+            e = calls[0]
+            a0 = e.args[0]
+            okself = a0 == ("ref", ("field", selfp, R.ITEM))
+            def side(t, f):
+                vals = [t] + list(subterms(t))
+                av = None
+                return any(x[0] == "field" and x[1] == selfp and x[2] == f for x in vals)
+            avs = e.extra.get("argvals") or [None] * len(e.args)
+            l_ok = side(e.args[1], R.LEFT) or (avs[1] is not None and side(avs[1], R.LEFT))
+            r_ok = side(e.args[2], R.RIGHT) or (avs[2] is not None and side(avs[2], R.RIGHT))
+            if not (okself and l_ok and r_ok):
+                ok, why = False, "TreapItem::%s is not called as self.item.%s(left child's item, right child's item): %s" % (meth, meth, ", ".join(tstr(x)[:60] for x in e.args))
+        key = "%s|item-%s" % (fk(nb), meth)
+        if ok:
+            col.ok("T7" + sfx, nb.loc(), key, "self.item.%s(left.item, right.item) on every path" % meth)
+        else:
+            col.violation("T7" + sfx, key, nb.loc(), "%s: %s" % (nb.path, why))
 
     # ---------------- T6 compositions
     _compositions(col, R, crate, sfx)
